@@ -173,6 +173,9 @@ RMC_CONSTS = {
     # markers on one node, virtual nodes closing rings (three libraries only)
     "ringvirtual": dict(MaxLen=8, NodeToks="NodesAV", SymToks="SymDot", RingToks="Rings2", MultCounts="NoMult",
                         MaxDepth=1, MaxOpen=2, EmitAll="FALSE", MaxNodes=4, LibSel="LibsRingVirtual"),
+    # a multiplier directly in front of a zero-order chain bond / next to a virtual node ( [#A]|2.[#V], [#A]|2.[#A]|2 )
+    "multvirtual": dict(MaxLen=6, NodeToks="NodesAV", SymToks="SymDot", RingToks="NoRings", MultCounts="Mult2",
+                        MaxDepth=1, MaxOpen=1, EmitAll="FALSE", MaxNodes=5, LibSel="LibsRingVirtual"),
     "quick": dict(MaxLen=5, NodeToks="NodesABV", SymToks="SymDotEq", RingToks="Rings1", MultCounts="NoMult",
                   MaxDepth=1, MaxOpen=1, EmitAll="FALSE", MaxNodes=3, LibSel="LibsAll"),
     "thorough": dict(MaxLen=6, NodeToks="NodesABV", SymToks="SymDotEq", RingToks="Rings1", MultCounts="Mult2",
@@ -184,9 +187,11 @@ def enumerate_configs(check, tier, extra=True):
     out = _enumerate_configs(check, tier)
     if extra and tier in ("quick", "thorough"):
         seen = {(render.render_graph_tokens(b), l["name"], g) for b, l, g in out}
-        for b, l, g in _enumerate_configs(check, "ringvirtual"):
-            if (render.render_graph_tokens(b), l["name"], g) not in seen:
-                out.append((b, l, g))
+        for uni in ("ringvirtual", "multvirtual"):
+            for b, l, g in _enumerate_configs(check, uni):
+                if (render.render_graph_tokens(b), l["name"], g) not in seen:
+                    seen.add((render.render_graph_tokens(b), l["name"], g))
+                    out.append((b, l, g))
     return out
 
 
@@ -650,7 +655,7 @@ def _config_check(pid, tier, rule, with_twin=False, extra_records=True, only=Non
 
 CFG_RULE = ("every base graph of the bounded grammar (<= {n} nodes over A, B and the fragment-less V; chains, branches, rings; "
             "orders 0-2) x 15 fragment libraries (unlabelled/labelled/directed/double/surplus/mixed/squash/aromatic/charged/"
-            "annotated/coarse) x both matching conventions, enumerated by TLC (ResolveMC); plus resolver strings found in "
+            "annotated/coarse) x both matching conventions, enumerated by TLC (ResolveMC; plus its ringvirtual and multvirtual universes: ring markers / a multiplier next to zero-order bonds and virtual nodes); plus resolver strings found in "
             "/repo and seeded cut configurations; every resolution step is one trace")
 
 
